@@ -80,6 +80,10 @@ pub fn geo() -> Geo {
 }
 
 struct SimTopic {
+    /// every entry of this topic is under the 128-byte "small entry" threshold of the offset scan
+    tiny: bool,
+    /// sizes to replay next (the sizes of the entries of a batch that was made to fail)
+    replay: Vec<u64>,
     name: String,
     off: u64,
     limit: u64,
@@ -88,6 +92,9 @@ struct SimTopic {
 }
 
 fn gen_size(r: &mut Rng, g: &Geo, st: &SimTopic, p: &Profile) -> u64 {
+    if st.tiny {
+        return r.below(128);
+    }
     let rem = st.limit - st.off;
     let fit = rem.saturating_sub(g.meta);
     let c = r.below(100);
@@ -133,7 +140,11 @@ pub fn gen_program(r: &mut Rng, g: &Geo, p: &Profile, backend: &str, seed_tag: u
     let mut clock = 1_700_000_000_000 + (seed_tag % 7) * 1000;
     lines.push(format!("clock {}", clock));
     lines.push("open".into());
-    let mut topics: Vec<SimTopic> = (0..p.topics).map(|k| SimTopic { name: format!("t{}", k), off: 0, limit: g.bs, log: vec![], consumed: 0 }).collect();
+    let mut topics: Vec<SimTopic> = (0..p.topics).map(|k| SimTopic { tiny: false, replay: vec![], name: format!("t{}", k), off: 0, limit: g.bs, log: vec![], consumed: 0 }).collect();
+    if p.reclaim_pct > 0 && r.chance(35) {
+        // blocks made of small entries only: the offset scan skips them all
+        topics[0].tiny = true;
+    }
     let nops = p.ops.0 + r.below((p.ops.1 - p.ops.0) as u64) as usize;
     let mut seedctr = 0u64;
     let mut next_desc = |len: u64| -> String {
@@ -213,6 +224,24 @@ pub fn gen_program(r: &mut Rng, g: &Geo, p: &Profile, backend: &str, seed_tag: u
         let writing = if write_heavy { k < nops * 2 / 3 && c < 85 } else { c < 50 };
         if writing {
             let st = &mut topics[ti];
+            if !st.replay.is_empty() && r.chance(70) {
+                // re-append entries of the sizes of the failed batch's first entries: the new entries end
+                // exactly where the failed batch's later entries began
+                let k = 1 + r.below(st.replay.len() as u64) as usize;
+                let sizes: Vec<u64> = st.replay[..k].to_vec();
+                st.replay.clear();
+                for len in sizes {
+                    sim_append(g, st, len);
+                    lines.push(format!("append {} {}", st.name, next_desc(len)));
+                }
+                if r.chance(50) {
+                    lines.push("restart".into());
+                    clock += 1 + r.below(3000);
+                    lines.push(format!("clock {}", clock));
+                    lines.push("open".into());
+                }
+                continue;
+            }
             let faulty = r.chance(p.fault_pct);
             let is_batch = r.chance(if faulty { 70 } else { 30 });
             if faulty {
@@ -233,6 +262,9 @@ pub fn gen_program(r: &mut Rng, g: &Geo, p: &Profile, backend: &str, seed_tag: u
                     items.push(next_desc(len));
                 }
                 if items.is_empty() { items.push(next_desc(1)); sim_append(g, st, 1); }
+                if faulty {
+                    st.replay = items.iter().map(|d| d.split(':').next().unwrap().parse::<u64>().unwrap()).collect();
+                }
                 lines.push(format!("batch {} {}", st.name, items.join(",")));
             } else {
                 let len = gen_size(r, g, st, p);
@@ -274,10 +306,14 @@ pub fn gen_program(r: &mut Rng, g: &Geo, p: &Profile, backend: &str, seed_tag: u
                         let mut acc = 0;
                         for l in &st.log { acc += l + g.meta; bounds.push(acc); }
                         let b = *r.pick(&bounds);
-                        let o = match r.below(6) { 0 => b, 1 => b + 1, 2 => b.saturating_sub(1), 3 => b + g.meta, 4 => b + g.meta + 3, _ => r.below(total + 600) };
+                        let o = match if p.reclaim_pct > 0 && r.chance(40) { 9 } else { r.below(6) } { 9 => 0, 0 => b, 1 => b + 1, 2 => b.saturating_sub(1), 3 => b + g.meta, 4 => b + g.meta + 3, _ => r.below(total + 600) };
                         format!("{}", o)
                     } else { "-".to_string() };
+                    // a non-consuming batch read must leave the reclamation bookkeeping alone: observe it on both sides
+                    let bracket = p.reclaim_pct > 0 && (!cp || off != "-") && r.chance(60);
+                    if bracket { lines.push("trks".into()); }
                     lines.push(format!("bread {} {} {} {}", st.name, max, cp as u8, off));
+                    if bracket { lines.push("trks".into()); }
                     if cp && off == "-" {
                         // rough estimate of consumption to keep steering meaningful
                         let mut tot = 0; let mut n = 0;
